@@ -46,7 +46,10 @@ func (b *verifBTree) GetFileSize() uint64 {
 // C18 smart rebalancer lifecycle under every schedule of {foreground, monitor goroutine, index ticker goroutine}
 // that the model distinguishes (see DESIGN: schedule mode): Start, optional foreground calls, Stop.
 // Stop returns (no deadlock), no goroutine outlives it, the index's background rebalancing is off afterwards.
-func verifSmartLifecycle(workload int, foreground bool) {
+func verifSmartLifecycle(workload int, foreground bool) { verifSmartLifecycleFg(workload, foreground, 0) }
+
+// fgKind: 0 = RecordOperation + GetStats, 1 = a forced Evaluate, 2 = progress / statistics queries on the index itself
+func verifSmartLifecycleFg(workload int, foreground bool, fgKind int) {
 	vrt.LoopBound(200000)
 	b := &verifBTree{bt: structures.NewWritableBTreeV2(4096), size: 1 << 30}
 	sr := NewSmartRebalancer(b, WithReevalInterval(time.Microsecond))
@@ -69,9 +72,21 @@ func verifSmartLifecycle(workload int, foreground bool) {
 	}
 	vrt.AssertNoErr(sr.Start(context.Background()), "start-ok")
 	vrt.Assert(sr.Start(context.Background()) != nil, "second-start-refused")
-	if foreground {
-		_ = sr.RecordOperation(OpWrite)
-		_ = sr.GetStats()
+	// natively (race-detector replay) the foreground calls are repeated for 40 ms so that ticks happen meanwhile
+	deadline := time.Now().Add(40 * time.Millisecond)
+	for k := 0; foreground && (k == 0 || (!vrt.Symbolic() && time.Now().Before(deadline))); k++ {
+		switch fgKind {
+		case 0:
+			_ = sr.RecordOperation(OpWrite)
+			_ = sr.GetStats()
+		case 1:
+			_, _ = sr.Evaluate()
+			_ = sr.GetMetrics()
+		default:
+			_, _ = b.bt.GetIncrementalRebalancingProgress()
+			_, _, _ = b.bt.GetLazyRebalancingStats()
+			_ = b.bt.IsIncrementalRebalancingEnabled()
+		}
 	}
 	vrt.AssertNoErr(sr.Stop(), "stop-returns")
 	vrt.AssertNoGoroutines("no-goroutine-outlives-stop")
@@ -83,5 +98,7 @@ func verifSmartLifecycle(workload int, foreground bool) {
 
 func VerifH_C18_smart_stop_incremental_sched() { verifSmartLifecycle(0, false) }
 func VerifH_C18_smart_stop_foreground_sched()  { verifSmartLifecycle(0, true) }
+func VerifH_C18_smart_evaluate_sched()         { verifSmartLifecycleFg(0, true, 1) }
+func VerifH_C18_smart_index_queries_sched()    { verifSmartLifecycleFg(0, true, 2) }
 func VerifH_C18_smart_stop_none_sched()        { verifSmartLifecycle(1, true) }
 func VerifH_C18_smart_stop_lazy_sched()        { verifSmartLifecycle(2, true) }
